@@ -388,7 +388,19 @@ pub fn gen_fault_history(rng: &mut Rng, prog: &Program, p: &GenParams, kind: u64
         }
         _ => {
             let execs: Vec<u32> = (0..n).filter(|i| !matches!(prog.kind(*i), Kind::In | Kind::Ex)).collect();
-            let node = if execs.is_empty() { 0 } else { *rng.pick(&execs) };
+            let pjs = prog.of_kind(Kind::Pj);
+            let fws = prog.of_kind(Kind::Fw);
+            // projections and firewalls run inside the engine's own passes
+            // (backward projection, firewall repair): panic there more often
+            let node = if !pjs.is_empty() && rng.chance(2, 5) {
+                *rng.pick(&pjs)
+            } else if !fws.is_empty() && rng.chance(1, 3) {
+                *rng.pick(&fws)
+            } else if execs.is_empty() {
+                0
+            } else {
+                *rng.pick(&execs)
+            };
             Op::Faulted {
                 op: Box::new(Op::Query { root: root(rng).max(node), new_tracked: true }),
                 fault: Fault::Panic { node, k: 0 },
@@ -478,6 +490,153 @@ pub fn gen_cyclic_history(rng: &mut Rng, prog: &Program, concurrent: bool) -> Ve
                 new_tracked: rng.chance(1, 3),
             }),
         }
+    }
+    ops
+}
+
+/// Shapes aimed at the transitive-firewall bookkeeping: switches decide
+/// whether a "gate" node reads a firewall / projection at all, the read is
+/// wrapped in an absorbing operation (so the reader's value often stays the
+/// same when the dependency appears or its value moves), and chains of normal
+/// nodes sit above the gates.
+pub fn gen_program_tfc(rng: &mut Rng) -> Program {
+    let mut nodes: Vec<Node> = Vec::new();
+    let inp = |nodes: &mut Vec<Node>| -> u32 {
+        nodes.push(Node { kind: Kind::In, expr: Expr::Const(vec![]) });
+        nodes.len() as u32 - 1
+    };
+    let n_sw = rng.range(1, 2);
+    let n_x = rng.range(1, 2);
+    let sw: Vec<u32> = (0..n_sw).map(|_| inp(&mut nodes)).collect();
+    let xs: Vec<u32> = (0..n_x).map(|_| inp(&mut nodes)).collect();
+    // firewalls over the data inputs, possibly chained
+    let mut fws: Vec<u32> = Vec::new();
+    for i in 0..rng.range(1, 3) {
+        let base = Expr::Read(*rng.pick(&xs));
+        let e = if i > 0 && rng.chance(1, 3) {
+            Expr::Add(b(base), b(Expr::Read(*rng.pick(&fws))))
+        } else if rng.chance(1, 2) {
+            Expr::Mul(b(base), rng.range(2, 10) as i64)
+        } else {
+            base
+        };
+        nodes.push(Node { kind: Kind::Fw, expr: e });
+        fws.push(nodes.len() as u32 - 1);
+    }
+    // optional projections
+    let mut srcs = fws.clone();
+    for _ in 0..rng.range(0, 2) {
+        let e = if rng.chance(1, 2) { Expr::Read(*rng.pick(&srcs)) } else { Expr::Idx(b(Expr::Read(*rng.pick(&srcs))), 0) };
+        nodes.push(Node { kind: Kind::Pj, expr: e });
+        srcs.push(nodes.len() as u32 - 1);
+    }
+    // gates
+    let mut gates: Vec<u32> = Vec::new();
+    for _ in 0..rng.range(1, 3) {
+        let src = Expr::Read(*rng.pick(&srcs));
+        let k = rng.range(1, 12) as i64;
+        let (absorbed, cap) = match rng.below(4) {
+            0 | 1 => (Expr::Min(b(src), b(Expr::Const(vec![k]))), Some(k)),
+            2 => (Expr::Mod(b(src), rng.range(2, 3) as i64), None),
+            _ => (src, None),
+        };
+        // often the value is the same whether the dependency is read or not
+        // (the read is capped at the constant the other branch returns)
+        let other = match cap {
+            Some(k) if rng.chance(2, 3) => Expr::Const(vec![k]),
+            _ if rng.chance(1, 2) || gates.is_empty() => Expr::Const(vec![rng.range(0, 10) as i64]),
+            _ => Expr::Read(*rng.pick(&gates)),
+        };
+        let e = if rng.chance(1, 2) {
+            Expr::If(b(Expr::Read(*rng.pick(&sw))), b(absorbed), b(other))
+        } else {
+            Expr::If(b(Expr::Read(*rng.pick(&sw))), b(other), b(absorbed))
+        };
+        let kind = if rng.chance(1, 6) { Kind::Fw } else { Kind::Nm };
+        nodes.push(Node { kind, expr: e });
+        gates.push(nodes.len() as u32 - 1);
+    }
+    // chains above the gates
+    let mut tops = gates.clone();
+    for _ in 0..rng.range(1, 4) {
+        let below = *rng.pick(&tops);
+        let e = match rng.below(4) {
+            0 => Expr::Add(b(Expr::Read(below)), b(Expr::Const(vec![1]))),
+            1 => Expr::Add(b(Expr::Read(below)), b(Expr::Read(*rng.pick(&tops)))),
+            2 => Expr::Read(below),
+            _ => Expr::Add(b(Expr::Read(below)), b(Expr::Read(*rng.pick(&xs)))),
+        };
+        nodes.push(Node { kind: Kind::Nm, expr: e });
+        tops.push(nodes.len() as u32 - 1);
+    }
+    Program { nodes }
+}
+
+/// histories for `gen_program_tfc`: switches and data move in separate
+/// sessions, queries go to the upper nodes
+pub fn gen_history_tfc(rng: &mut Rng, prog: &Program) -> Vec<Op> {
+    let ins = prog.of_kind(Kind::In);
+    let n = prog.len();
+    let n_ins = ins.len();
+    let mut cur: Vec<i64> = (0..n_ins).map(|i| if i * 2 < n_ins { rng.below(2) as i64 } else { *rng.pick(&[20, 20, 5, 1]) }).collect();
+    let mut ops = vec![Op::Session {
+        steps: ins.iter().zip(&cur).map(|(i, v)| SessStep::Set { node: *i, val: vec![*v] }).collect(),
+        commit: true,
+    }];
+    let top = |rng: &mut Rng| n - 1 - rng.below(u64::from(n.min(4))) as u32;
+    for _ in 0..rng.range(3, 9) {
+        if rng.chance(1, 2) {
+            ops.push(Op::Query { root: top(rng), new_tracked: rng.chance(1, 2) });
+        } else {
+            let i = rng.usize(ins.len());
+            // switches toggle, data takes small and large values
+            let v = if rng.chance(1, 2) { 1 - cur[i].clamp(0, 1) } else { *rng.pick(&[0, 1, 2, 5, 20]) };
+            cur[i] = v;
+            ops.push(Op::Session { steps: vec![SessStep::Set { node: ins[i], val: vec![v] }], commit: rng.chance(4, 5) });
+            if rng.chance(2, 3) {
+                ops.push(Op::Query { root: top(rng), new_tracked: true });
+            }
+        }
+    }
+    ops
+}
+
+/// C05, "panic inside one of the engine's own passes": a firewall / projection
+/// sandwich is computed, the data below the firewall changes, and the request
+/// that makes the engine repair the firewall (and re-run the projections above
+/// it) meets a panicking executor; the same root is asked again right after.
+pub fn gen_pass_panic_history(rng: &mut Rng, prog: &Program) -> Vec<Op> {
+    use crate::scenario::Fault;
+    let ins = prog.of_kind(Kind::In);
+    let n = prog.len();
+    let n_ins = ins.len();
+    let mut cur: Vec<i64> = (0..n_ins).map(|i| if i * 2 < n_ins { 1 } else { 20 }).collect();
+    let mut ops = vec![Op::Session {
+        steps: ins.iter().zip(&cur).map(|(i, v)| SessStep::Set { node: *i, val: vec![*v] }).collect(),
+        commit: true,
+    }];
+    let top = n - 1 - rng.below(u64::from(n.min(3))) as u32;
+    ops.push(Op::Query { root: top, new_tracked: true });
+    // move a data input (the second half of the inputs feeds the firewalls)
+    let di = n_ins / 2 + rng.usize(n_ins - n_ins / 2);
+    cur[di] = *rng.pick(&[1, 2, 5, 7]);
+    ops.push(Op::Session { steps: vec![SessStep::Set { node: ins[di], val: vec![cur[di]] }], commit: true });
+    let mut cands: Vec<u32> = prog.of_kind(Kind::Pj);
+    cands.extend(prog.of_kind(Kind::Fw));
+    if cands.is_empty() || rng.chance(1, 4) {
+        cands = (0..n).filter(|i| !matches!(prog.kind(*i), Kind::In | Kind::Ex)).collect();
+    }
+    let node = *rng.pick(&cands);
+    ops.push(Op::Faulted {
+        op: Box::new(Op::Query { root: top.max(node), new_tracked: true }),
+        fault: Fault::Panic { node, k: 0 },
+    });
+    ops.push(Op::Query { root: top, new_tracked: true });
+    if rng.chance(1, 2) {
+        let si = rng.usize(n_ins);
+        cur[si] = if si * 2 < n_ins { 1 - cur[si].clamp(0, 1) } else { *rng.pick(&[3, 9, 20]) };
+        ops.push(Op::Session { steps: vec![SessStep::Set { node: ins[si], val: vec![cur[si]] }], commit: true });
+        ops.push(Op::Query { root: top, new_tracked: true });
     }
     ops
 }
